@@ -195,6 +195,35 @@ def mutation_problem(kind, ign_generated):
     return None
 
 
+def eviction():
+    """Concrete: equality and hashing survive the eviction of the generated record class (the class cache holds 4096 entries): a record,
+    more than 4096 other record types, then the same descriptor and record rebuilt and read back from a stream."""
+    import io
+
+    from flow.record import RecordDescriptor
+    from flow.record.stream import RecordStreamReader, RecordStreamWriter
+
+    fields = [("varint", "x"), ("string", "s")]
+    a = RecordDescriptor("t/evict", fields)(1, "one", _generated=GEN)
+    buf = io.BytesIO()
+    w = RecordStreamWriter(buf)
+    w.write(a)
+    w.flush()
+    data = buf.getvalue()
+    w.fp = None
+    for i in range(4200):
+        RecordDescriptor(f"t/filler{i}", [("varint", f"f{i}")])
+    b = RecordDescriptor("t/evict", fields)(1, "one", _generated=GEN)
+    c = list(RecordStreamReader(io.BytesIO(data)))[0]
+    probs = []
+    for what, other in (("rebuilt after 4200 other record types were created", b), ("read back from a stream after 4200 other record types were created", c)):
+        if not (a == other and other == a and not (a != other)):
+            probs.append(f"a record and the same record {what} are not equal")
+        elif hash(a) != hash(other) or len({a, other}) != 1:
+            probs.append(f"a record and the same record {what} are equal but hash differently")
+    return {"ok": not probs, "detail": "; ".join(probs) or "equality and hash survive class-cache eviction", "cex": {"kw": {"problems": probs}}}
+
+
 def mutation():
     """path-exhaustive over (kind of record, which part is assigned, _generated ignored or not); concrete part untraced (hash() is C)"""
     from crosshair.tracers import NoTracing
@@ -349,6 +378,7 @@ def obligations(tier, seed):
     for s in ("nested", "list", "grouped"):
         obs.append(ob(f"O2-shape/{s}", "xh", "shapes", {"shape": s}, timeout=to * 2, group="O2-shape"))
         obs.append(ob(f"O2-shape-hash/{s}", "xh", "shapes", {"shape": s, "with_hash": True}, timeout=20, group="O2-shape", bounds="hunt only", hunt_only=True))
+    obs.append(ob("S1-class-cache-eviction", "side", "eviction", {}, timeout=120, group="S1-eviction"))
     obs.append(ob("O5-hash-after-assignment", "xh", "mutation", {}, timeout=to, bounds="4 kinds of record / assigned part x _generated ignored or not (path-exhaustive)"))
     obs.append(ob("O3-scopes", "xh", "scopes", {}, timeout=to * 3, bounds="outer 2^3 x inner 2^3 x nested inner 2^2 x raises x nested x set/scope"))
     obs.append(ob("O4-types", "xh", "types", {}, timeout=to, bounds=f"{len(TYPE_TABLE)} field types x 4 variations (path-exhaustive over the table)"))
@@ -361,6 +391,9 @@ def replay(res):
     from flow.record import GroupedRecord, RecordDescriptor
 
     gid = res["id"]
+    if "S1-class-cache-eviction" in gid:
+        out = eviction()
+        return {"reproduced": not out["ok"], "key": "C12/class-cache-eviction", "what": out["detail"], "input": {}}
     if "O4-types" in gid:
         for i in range(len(TYPE_TABLE)):
             for v in range(4):
